@@ -96,6 +96,24 @@ CLAIMED = {
             "findings: balanced / distributed / balanced_market miss on curves that vary between SoC and desired SoC (F2).",
             "Lean 4 proof (balanced recurrence, ceiling of remaining steps) on the strategy model + oracle on real runs of six strategies",
             "DESIGN.md §4 C09"),
+    "C10": ("The greedy/balanced step (allocation pass in id order, surplus/V2G pass, stationary-battery pass, "
+            "clamp_power, add_load bookkeeping) is transliterated into Lean on top of the battery model and is bit-identical "
+            "(by value) with the real Greedy.step/Balanced.step on every step of generated scenarios (commands, connector "
+            "loads, station power, vehicle and battery SoCs, exception kind). On that model the documented rule is proved "
+            "clause by clause: offered power per case (greedy / balanced / cheap price), no overcharge without surplus or "
+            "cheap price, id order independent of dict order, remaining steps = ceiling of remaining time, battery policy. "
+            "An independent executable specification of the documented rule (Python, on copies of the real Battery) is run "
+            "on the same world states as oracle.",
+            "Lean 4 proof on a transliterated strategy model + bit-level Float correspondence per step + independent reference spec",
+            "DESIGN.md §4 C10"),
+    "C14": ("The station-count logic of Distributed.step is modelled and proved (at most number_cs holders, previous "
+            "holders keep their point, new holders are non-holders among the candidates, the closing assertion cannot "
+            "fire); it is compared with the real ranking block on its recorded inputs at every step. The delegation "
+            "sentences (depot = balanced, opportunity = greedy, connectors independent) are decided by an implementation-vs-"
+            "implementation stream: real distributed vs real balanced/greedy runs on the scenario restricted to the "
+            "connector, exact comparison; the delegated strategies themselves are the model of C10.",
+            "Lean 4 proof (station-count invariant) + correspondence on recorded ranking inputs + impl-vs-impl differential runs",
+            "DESIGN.md §4 C14"),
     "C15": ("All sentences are Lean theorems about the executable model of the three util.py functions on an integer "
             "datetime model: window membership <=> first season containing the date has a half-open (midnight-wrapping) "
             "window of the level; core standing time exact iff-characterisation with error branch, and equality with the "
